@@ -15,7 +15,7 @@ from ..report import Ctx
 from ..symeval import SymEval, is_const, show
 from ..tables import Poly
 from . import shared as SH
-from .util import expand_ites, guard_text, is_self_call, leaves, mentions, subterms
+from .util import drop_exit_facts, expand_ites, guard_text, is_self_call, leaves, mentions, subterms
 
 
 class DecoderModel:
@@ -62,6 +62,51 @@ def _match_field(t, w: int):
     if t[0] == "bin" and t[1] == "%" and t[3] == ("const", 1 << w) and t[2][0] == "bin" and t[2][1] == ">>":
         return t[2][2], t[2][3]
     return None
+
+
+def _poly_case(t, B, w, neg, symv):
+    """Polynomial of a value expression over the extracted bits B of width w, under the assumption that the top bit of B is set (neg) or clear:
+    B & M -> M or 0, B ^ M -> B - M or B + M, B & ~M / B & (M - 1) / B % M -> B - M or B, B >> (w - 1) -> 1 or 0 (M = 2^(w-1)); the rest is ordinary arithmetic."""
+    M = 1 << (w - 1) if w >= 1 else None
+    full = (1 << w) - 1 if w >= 0 else None
+
+    def rec(x):
+        if x == B:
+            return Poly.sym("B")
+        if is_const(x):
+            return Poly.const(x[1]) if isinstance(x[1], (int, float)) and not isinstance(x[1], bool) else None
+        if x[0] == "bin":
+            op, a, b = x[1], x[2], x[3]
+            if M is not None and op in ("&", "^", "%", ">>"):
+                for u, v in ((a, b), (b, a)):
+                    if u == B and is_const(v) and isinstance(v[1], int):
+                        k = v[1]
+                        if op == "&" and k == M:
+                            return Poly.const(M if neg else 0)
+                        if op == "^" and k == M:
+                            return Poly.sym("B") - M if neg else Poly.sym("B") + M
+                        if op == "&" and (k == M - 1 or k == ~M or k == (full & ~M)):
+                            return Poly.sym("B") - M if neg else Poly.sym("B")
+                        if op == "&" and k == full:
+                            return Poly.sym("B")
+                    if op in ("%", ">>"):
+                        break
+                if a == B and is_const(b) and isinstance(b[1], int):
+                    if op == "%" and b[1] == M:
+                        return Poly.sym("B") - M if neg else Poly.sym("B")
+                    if op == ">>" and b[1] == w - 1:
+                        return Poly.const(1 if neg else 0)
+            if op in ("+", "-", "*"):
+                pa, pb = rec(a), rec(b)
+                if pa is None or pb is None:
+                    return None
+                return pa + pb if op == "+" else (pa - pb if op == "-" else pa * pb)
+        if x[0] == "un" and x[1] in ("-", "neg"):
+            pa = rec(x[2])
+            return None if pa is None else -pa
+        return to_poly(x, symv)
+
+    return rec(t)
 
 
 def _topbit_test(c, B, w):
@@ -158,7 +203,7 @@ def field_values(eng: Engine, ctx: Ctx, rid1: str, rid2: str, rid3: str, rid5: s
             continue
         V = valsets[0].term[3][2]
         # ---- D5 offset advance
-        if len(rets) != 1 or not all(bounds_literal(c, pol) for c, pol in rets[0].guards):
+        if len(rets) != 1 or not all(bounds_literal(c, pol) for c, pol in drop_exit_facts(rets[0].guards, rets[0].loops)):
             fail(rid5, key, "single unconditional return", "return offset + w", f"{len(rets)} return(s)", node)
         else:
             rp = to_poly(rets[0].term, symn)
@@ -203,8 +248,23 @@ def field_values(eng: Engine, ctx: Ctx, rid1: str, rid2: str, rid3: str, rid5: s
         if typ == tc["STR"]:
             name = valsets[0].term[3][1]
             okn = name == ("const", key)
-            okv = (V[0] == "bin" and V[1] == "+" and V[2][0] == "call" and V[2][2] == ("builtin", "getattr") and V[2][3] == (("self",), ("const", key), ("const", ""))
-                   and V[3] == ("ite", ("cmp", "==", B, ("const", 0)), ("const", ""), V[3][3]) and V[3][3][0] == "call" and V[3][3][2] == ("builtin", "chr") and V[3][3][3] == (B,))
+            okv = V[0] == "bin" and V[1] == "+" and V[2][0] == "call" and V[2][2] == ("builtin", "getattr") and V[2][3] == (("self",), ("const", key), ("const", ""))
+            if okv:
+                # the appended unit: '' exactly when F == 0, chr(F) otherwise - whichever way round the test is written
+                for g, leaf in expand_ites(V[3]):
+                    zero = None
+                    for c, pol in g:
+                        z = None
+                        if c[0] == "cmp" and c[1] in ("==", "!=") and ((c[2] == B and c[3] == ("const", 0)) or (c[3] == B and c[2] == ("const", 0))):
+                            z = (c[1] == "==") == pol
+                        elif c == B:
+                            z = not pol
+                        if z is None or (zero is not None and zero != z):
+                            okv = False
+                        zero = z
+                    is_chr = isinstance(leaf, tuple) and leaf[0] == "call" and leaf[2] == ("builtin", "chr") and leaf[3] == (B,)
+                    if zero is None or not (leaf == ("const", "") if zero else is_chr):
+                        okv = False
             if not (okn and okv):
                 fail(rid2, key, "text field value", "getattr(self, key, '') + ('' if F == 0 else chr(F)) stored under the un-indexed key", show(V)[:90], node)
             continue
@@ -213,49 +273,53 @@ def field_values(eng: Engine, ctx: Ctx, rid1: str, rid2: str, rid3: str, rid5: s
             if not okv:
                 fail(rid2, key, "character field value", "chr(F)", show(V)[:80], node)
             continue
+        signed = typ in (tc["INT"], tc["INTS"])
+        stop = False
         for g, leaf in expand_ites(V):
-            lp = to_poly(leaf, symv)
-            if lp is None:
-                fail(rid2, key, "value expression", "arithmetic in the extracted bits", show(leaf)[:80], node)
-                break
             tests = [(_topbit_test(c, B, w), pol) for c, pol in g]
             if any(t is None for t, _ in tests):
                 fail(rid2, key, "value condition", "only the sign-bit test may select the value", guard_text(g)[:80], node)
                 break
-            neg = any((t == pol) for t, pol in tests) if tests else False
-            if typ in (tc["UINT"], tc["BIT"], tc["BITX"]):
-                want = Poly.sym("B")
-                if tests:
-                    fail(rid2, key, "unsigned value", "F regardless of its top bit", guard_text(g)[:60], node)
-                    break
-            elif typ == tc["INT"]:
-                want = Poly.sym("B") - (1 << w) if neg else Poly.sym("B")
-                if not tests:
-                    fail(rid2, key, "two's-complement value", "F - 2^w when bit w-1 is set", "no sign test", node)
-                    break
-            elif typ == tc["INTS"]:
-                want = -Poly.sym("LOW") if neg else Poly.sym("LOW")
-                if not tests:
-                    fail(rid2, key, "sign-magnitude value", "-low(F, w-1) when bit w-1 is set", "no sign test", node)
-                    break
-            else:
+            if typ not in (tc["UINT"], tc["BIT"], tc["BITX"], tc["INT"], tc["INTS"]):
                 fail(rid2, key, "data type", "one of the ten data types", str(typ), node)
                 break
+            if not signed and tests:
+                fail(rid2, key, "unsigned value", "F regardless of its top bit", guard_text(g)[:60], node)
+                break
+            # case split on the sign bit: fixed by the guard when the code tests it, otherwise both values are examined (branch-free arithmetic
+            # such as (F ^ msb) - msb or F & ~msb is then compared case by case)
+            cases = [any((t == pol) for t, pol in tests)] if tests else ([False, True] if signed and w >= 1 else [False])
             from fractions import Fraction
 
-            want_scaled = want * Fraction(scale) if scale is not None else want
-            # LOW = F mod 2^(w-1): under the sign test it is F - 2^(w-1), otherwise F itself
-            low_val = (Poly.sym("B") - (1 << (w - 1))) if neg else Poly.sym("B")
-            lp = lp.subst({"LOW": low_val})
-            want_scaled = want_scaled.subst({"LOW": low_val})
-            want = want.subst({"LOW": low_val})
-            if lp != want_scaled:
-                if lp == want:
-                    fail(rid3, key, "scaling", f"value * {scale}", "unscaled", node)
-                elif scale is None and any(lp == want * Fraction(x) for x in ([res] if isinstance(res, (int, float)) and res else [])):
-                    fail(rid3, key, "scaling", "no scaling (resolution 0/1 or text)", f"scaled by {res}", node)
+            for neg in cases:
+                lp = _poly_case(leaf, B, w, neg, symv)
+                if lp is None:
+                    fail(rid2, key, "value expression", "arithmetic in the extracted bits", show(leaf)[:80], node)
+                    stop = True
+                    break
+                if typ == tc["INT"]:
+                    want = Poly.sym("B") - (1 << w) if neg else Poly.sym("B")
+                elif typ == tc["INTS"]:
+                    want = -Poly.sym("LOW") if neg else Poly.sym("LOW")
                 else:
-                    fail(rid2, key, f"value of type {typ}", repr(want_scaled), repr(lp)[:80], node)
+                    want = Poly.sym("B")
+                want_scaled = want * Fraction(scale) if scale is not None else want
+                # LOW = F mod 2^(w-1): when the sign bit is set it is F - 2^(w-1), otherwise F itself
+                low_val = (Poly.sym("B") - (1 << (w - 1))) if neg else Poly.sym("B")
+                lp = lp.subst({"LOW": low_val})
+                want_scaled = want_scaled.subst({"LOW": low_val})
+                want = want.subst({"LOW": low_val})
+                if lp != want_scaled:
+                    sign = "set" if neg else "clear"
+                    if lp == want:
+                        fail(rid3, key, "scaling", f"value * {scale}", "unscaled", node)
+                    elif scale is None and any(lp == want * Fraction(x) for x in ([res] if isinstance(res, (int, float)) and res else [])):
+                        fail(rid3, key, "scaling", "no scaling (resolution 0/1 or text)", f"scaled by {res}", node)
+                    else:
+                        fail(rid2, key, f"value of type {typ}" + (f" (sign bit {sign})" if signed else ""), repr(want_scaled), repr(lp)[:80], node)
+                    stop = True
+                    break
+            if stop:
                 break
     # aggregate: one obligation per failing (rule, aspect); one discharged per descriptor class
     for (rule, what, expected), items in bad_keys.items():
@@ -474,7 +538,11 @@ def threading(eng: Engine, ctx: Ctx, rid: str, model: DecoderModel):
                 ctx.check(a is not None and valid_idx(a), rid, q, f"index stack passed to {norm(e.node)[:60]}", expected="the current index stack (parameter / previous result / the driver's fresh list)", found=show(a)[:80] if a is not None else "missing", **eng.loc(f, e.node))
             if e.term[2][2] == disp_name and len(params) >= 2:
                 k, d = args.get(params[0]), args.get(params[1])
-                okk = k is not None and d is not None and k[0] == "elem" and k[1] == d
+                src = k[1] if (k is not None and k[0] == "elem") else None
+                # list(d) / tuple(d) / d.keys() enumerate the keys of d in definition order, as iterating d itself does
+                if src is not None and src[0] == "call" and not src[4] and ((src[2][0] == "builtin" and src[2][1] in ("list", "tuple", "iter") and len(src[3]) == 1) or (src[2][0] == "attr" and src[2][2] == "keys" and not src[3])):
+                    src = src[3][0] if src[2][0] == "builtin" else src[2][1]
+                okk = k is not None and d is not None and k[0] == "elem" and src == d
                 ctx.check(okk, rid, q, f"key and dictionary passed to {norm(e.node)[:60]}", expected="each key of the definition dict in turn, with that dict", found=f"{show(k)[:50] if k else '-'}, {show(d)[:50] if d else '-'}", **eng.loc(f, e.node))
                 if q == eng.attributes_driver:
                     okd = d is not None and d[0] == "call" and d[2] == ("attr", ("self",), sel_name)
